@@ -404,6 +404,46 @@ Proof.
   - eapply winv_frame; [| |exact Hinv]; reflexivity.
 Qed.
 
+(** setSwapEnabledByUser: what a success implies, and what it does *)
+Lemma enable_swap_spec w c addr ltok orig unlock amt w' o :
+  ep_enable_swap w c addr ltok orig unlock amt = Ok (w', o) ->
+  exists pe p1 p2 o1 e1 o2 e2,
+    r_active (w_r w) = true /\ registered w addr = Ok pe /\
+    p_state (pe_p pe) = ST_PartialActive /\ pe_lp pe = true /\ orig = addr /\
+    p_adder (pe_p pe) = Some c /\
+    step (pe_p pe) (SetFee OWNER ROUTER_USER_DEFINED_TOTAL_FEE_PERCENT ROUTER_DEFAULT_SPECIAL_FEE_PERCENT) = Ok (p1, o1, e1) /\
+    step p1 (SetState OWNER ST_Active) = Ok (p2, o2, e2) /\
+    w' = set_pairs w (upd_pair (w_pairs w) addr (set_pp pe p2)) /\ o = [].
+Proof.
+  unfold ep_enable_swap. intros H. cbv zeta in H.
+  destruct (r_active (w_r w)); [|discriminate].
+  apply bind_ok in H. destruct H as (pe & Hreg & H).
+  destruct (p_state (pe_p pe) =? ST_PartialActive) eqn:Es; [|discriminate].
+  destruct (0 <? amt); [|discriminate]. destruct (is_locked_tok ltok); [|discriminate].
+  destruct (pe_lp pe) eqn:Elp; [|discriminate]. destruct (orig =? addr) eqn:Eo; [|discriminate].
+  destruct (view_tokens_for_position (pe_p pe) amt) as [v1 v2].
+  apply bind_ok in H. destruct H as ([common value] & _ & H).
+  destruct (cfg_get (r_cfg (w_r w)) common) as [[[locked minval] minep]|]; [|discriminate].
+  destruct (ltok =? locked); [|discriminate]. destruct (minval <=? value); [|discriminate].
+  destruct (minep <=? _); [|discriminate].
+  destruct (p_adder (pe_p pe)) as [ad|] eqn:Ead; [|discriminate].
+  destruct (c =? ad) eqn:Ec; [|discriminate].
+  apply bind_ok in H. destruct H as ([[p1 o1] e1] & Hs1 & H).
+  apply bind_ok in H. destruct H as ([[p2 o2] e2] & Hs2 & H).
+  inversion H; subst; clear H. beq. subst.
+  exists pe, p1, p2, o1, e1, o2, e2. auto 12.
+Qed.
+
+Lemma enable_swap_winv w c addr ltok orig unlock amt w' o :
+  ep_enable_swap w c addr ltok orig unlock amt = Ok (w', o) -> WInv w -> WInv w'.
+Proof.
+  intros H Hinv. apply enable_swap_spec in H.
+  destruct H as (pe & p1 & p2 & o1 & e1 & o2 & e2 & _ & Hreg & _ & _ & _ & _ & Hs1 & Hs2 & -> & _).
+  apply registered_ok in Hreg. destruct Hreg as [Hat _].
+  apply winv_upd with (pe := pe); auto. simpl.
+  apply step_spec in Hs1; [|eapply wi_pinv; eauto]. apply step_spec in Hs2; tauto.
+Qed.
+
 Lemma rstep_winv w op w' o : rstep w op = Ok (w', o) -> WInv w -> WInv w'.
 Proof.
   intros H Hinv. destruct op; simpl in H.
@@ -465,6 +505,17 @@ Proof.
     apply bind_ok in H. destruct H as (led1 & _ & H). inversion H; subst.
     eapply winv_frame; [| |exact Hinv]; reflexivity.
   - (* SetBlock *) inversion H; subst. eapply winv_frame; [| |exact Hinv]; reflexivity.
+  - (* AddCommon *) unfold ep_add_common in H. destruct (is_owner w c); [|discriminate].
+    destruct (tok_valid tok); [|discriminate]. cbv zeta in H. inversion H; subst.
+    eapply winv_frame; [| |exact Hinv]; reflexivity.
+  - (* RemoveCommon *) unfold ep_remove_common in H. destruct (is_owner w c); [|discriminate].
+    cbv zeta in H. inversion H; subst. eapply winv_frame; [| |exact Hinv]; reflexivity.
+  - (* ConfigEnable *) unfold ep_config_enable in H. destruct (is_owner w c); [|discriminate].
+    destruct (tok_valid common); [|discriminate]. destruct (tok_valid locked); [|discriminate].
+    cbv zeta in H. destruct (zmem common (r_common (w_r w))); [|discriminate]. inversion H; subst.
+    eapply winv_frame; [| |exact Hinv]; reflexivity.
+  - (* EnableSwap *) eapply enable_swap_winv; eauto.
+  - (* SetEpoch *) inversion H; subst. eapply winv_frame; [| |exact Hinv]; reflexivity.
 Qed.
 
 Lemma rstep_total_winv w op : WInv w -> WInv (rstep_total w op).
@@ -651,7 +702,8 @@ Qed.
 Definition mgmt_target (op : rop) : option Z :=
   match op with
   | Pause _ a | Resume _ a => if a =? ROUTER then None else Some a
-  | RSetFeeOn _ a _ _ | RSetFeeOff _ a _ _ | SetLocalRoles _ a | IssueLp _ a => Some a
+  | RSetFeeOn _ a _ _ | RSetFeeOff _ a _ _ | SetLocalRoles _ a | IssueLp _ a
+  | EnableSwap _ a _ _ _ _ => Some a
   | _ => None
   end.
 
@@ -677,6 +729,8 @@ Proof.
     destruct (r_active (w_r w)); [|discriminate].
     destruct (is_owner w c || r_creation (w_r w)); [|discriminate].
     apply bind_ok in H. destruct H as (pe & Hreg & _). eapply registered_Registered; eauto.
+  - inversion T; subst addr0. apply enable_swap_spec in H.
+    destruct H as (pe & _ & _ & _ & _ & _ & _ & _ & Hreg & _). eapply registered_Registered; eauto.
 Qed.
 
 (** registration is not affected by swaps: the registry and the tokens a pair reports stay put *)
